@@ -13,3 +13,6 @@ import SoxrModel.Properties.C04Coef
 #print axioms Soxr.Properties.C04Coef.F_scales
 #print axioms Soxr.Properties.C04Coef.gain_scales_whole_table
 #print axioms Soxr.Properties.C04Coef.E_scales
+#print axioms Soxr.Properties.C04Coef.interp_reaches_next_value
+#print axioms Soxr.Properties.C04Coef.interp_starts_at_value
+#print axioms Soxr.Properties.C04Coef.kernel_index_form
